@@ -10,16 +10,22 @@ from .. import spec as S
 PROP = "C15"
 
 
-def check_doc(spec, hist):
-    """Every unmutated document must load; every single-point mutant the reference rejects must be refused."""
+def check_doc(spec, hist, infinite_weight=False):
+    """Every unmutated document must load; every single-point mutant the reference rejects must be refused.
+    infinite_weight: the last event is filled with weight +inf (documents carrying "inf"/"nan" strings)."""
     import histogrammar as hg
     import histogrammar.version as HV
 
     out = []
     stats = {"mutants": 0, "reference_rejects": 0, "reference_accepts": 0, "raised": 0}
     h = core.mk(spec, hist)
+    if infinite_weight:
+        try:
+            h.fill(A.fresh(hist[-1][0]), float("inf"))
+        except Exception:
+            return out, stats
     doc = json.loads(json.dumps(h.toJson()))
-    base = {"spec": spec, "hist": core.show_evs(hist)}
+    base = {"spec": spec, "hist": core.show_evs(hist), "infinite_weight": infinite_weight}
     if not J.valid_doc(doc, HV.specification):
         out.append(FW.violation(PROP, "valid-doc", "reference validator rejects a toJson() document:" + spec["t"],
                                 "harness-or-format", base, {"doc": doc}))
@@ -70,6 +76,13 @@ def _tree(task):
     hists = [[], [evs[0], evs[len(evs) // 2], evs[-1]]]
     if tier != "quick":
         hists.append([evs[1 % len(evs)], evs[-1], evs[-1]])
+    if not any(n.get("tr") for _, _, n in S.node_ids(spec)):
+        vs, st = check_doc(spec, hists[1], infinite_weight=True)
+        acc.add(vs)
+        acc.n("documents")
+        acc.n("documents_with_nonfinite_numbers")
+        for k, v in st.items():
+            acc.n(k, v)
     for hist in hists:
         vs, st = check_doc(spec, hist)
         acc.add(vs)
@@ -154,5 +167,5 @@ def run(tier, seed):
 
 
 def replay(driver, args):
-    vs, _ = check_doc(args["spec"], core.unshow_evs(args["hist"]))
+    vs, _ = check_doc(args["spec"], core.unshow_evs(args["hist"]), args.get("infinite_weight", False))
     return vs
